@@ -879,6 +879,13 @@ class Manager:
                 self.fire(event.child('failure', event, err), *event.channels)
 
             self.fire(exception(*err, handler=None, fevent=event))
+
+            # the failed generator counts as finished, like in the
+            # StopIteration case above
+            event.waitingHandlers -= 1
+            if parent:
+                self.registerTask((event, parent, None))
+            self._eventDone(event, err)
         finally:
             self._currently_handling = handling
 
